@@ -23,7 +23,7 @@ SPECS = {
         family="box", lean_module="BumpVerif.Props.C17", level="proof",
         fields=_FIELDS, nontrivial_ops=[o for o in _OPS_ALL if o not in ("read", "new_str", "default_str")],
         thorough_scale=20, timeout=240, trusted_extra=BOX_TRUSTED,
-        partial=["delegation clause (compare/hash/format/iterate/poll as the pointee): sampled against std::boxed::Box, not proved"],
+        partial=["delegation clause (compare/hash/format/iterate/poll as the pointee): proved for the regenerated table of method bodies (each is literally a forward, as classified by the translator tools/extract_box.py, which is trusted); the pointee results themselves are sampled against std::boxed::Box"],
         explanation="Theorems about the Lean ownership machine of boxed.rs (Own invariant over all programs, exactly-one drop, transfers "
                     "without drop, downcast by tag, order-preserving conversions, arena untouched) + differential run: every generated "
                     "program on bumpalo::boxed::Box, std::boxed::Box and the model; drop ledgers with unique ids, arena accounting and "
